@@ -331,8 +331,13 @@ def unit_conv(u, rec):
                 rec.close(abs(g.extract_normalized_gradient_norm_scale_from_difficulty(d2, num_spatial_dims=D, num_points=N, maximum_absolute=M) - b2), 16 * EPS * abs(b2), "C13/conv/extract_gradient_norm", "inverse", D=D, N=N)
                 rec.count(states=1, transitions=4, traces=1)
                 # the triple form (quadratic, single-channel convection, gradient norm) used by the difficulty nonlinear stepper (not re-exported)
-                from exponax.stepper.generic import _utils as gu
+                try:
+                    from exponax.stepper.generic import _utils as gu
 
+                    gu.reduce_normalized_nonlinear_scales_to_difficulty, gu.extract_normalized_nonlinear_scales_from_difficulty
+                except (ImportError, AttributeError):  # not part of the exported interface: absent after a refactor is not a violation
+                    rec.dim("skipped", "nonlinear-scale triple conversions not present")
+                    continue
                 bt = (0.3 * s, b1, b2)
                 dt3 = gu.reduce_normalized_nonlinear_scales_to_difficulty(bt, num_spatial_dims=D, num_points=N, maximum_absolute=M)
                 wt = (bt[0], b1 * M * N * D, b2 * M * N * N * D)
